@@ -333,10 +333,25 @@ struct SchedState {
     /// Log of (actor, key, pre) in global execution order.
     trace: Vec<(usize, Logged)>,
     occ: Vec<HashMap<(V, String), u32>>,
+    /// How many operations matched each fault so far.
+    fault_seen: Vec<u16>,
+}
+
+/// An injected storage error in a scheduled run: the `nth` (0-based) operation of `actor`
+/// whose verb is `verb` (any if None) and whose path starts with `prefix` fails with `kind`
+/// and is not performed.
+#[derive(Debug, Clone, PartialEq, Eq, Serialize, Deserialize)]
+pub struct RaceFault {
+    pub actor: usize,
+    pub verb: Option<V>,
+    pub prefix: String,
+    pub nth: u16,
+    pub kind: Kind,
 }
 
 pub struct Sched {
     root: PathBuf,
+    faults: Vec<RaceFault>,
     st: Mutex<SchedState>,
     cv: Condvar,
 }
@@ -348,13 +363,19 @@ pub struct ActorHook {
 
 impl Sched {
     pub fn new(root: &Path, n_actors: usize) -> Arc<Sched> {
+        Sched::with_faults(root, n_actors, vec![])
+    }
+
+    pub fn with_faults(root: &Path, n_actors: usize, faults: Vec<RaceFault>) -> Arc<Sched> {
         Arc::new(Sched {
             root: root.to_path_buf(),
             st: Mutex::new(SchedState {
                 actors: vec![ActorState::Running; n_actors],
                 trace: vec![],
                 occ: vec![HashMap::new(); n_actors],
+                fault_seen: vec![0; faults.len()],
             }),
+            faults,
             cv: Condvar::new(),
         })
     }
@@ -436,6 +457,15 @@ impl Interceptor for ActorHook {
         let pre = s.pre_state(&call.path);
         let mut st = s.st.lock().unwrap();
         let index = st.trace.len();
+        let mut injected = None;
+        for (fi, f) in s.faults.iter().enumerate() {
+            if f.actor == self.id && f.verb.map_or(true, |v| v == verb) && call.path.starts_with(&f.prefix) {
+                if st.fault_seen[fi] == f.nth && injected.is_none() {
+                    injected = Some(f.kind);
+                }
+                st.fault_seen[fi] = st.fault_seen[fi].saturating_add(1);
+            }
+        }
         st.trace.push((
             self.id,
             Logged {
@@ -450,11 +480,14 @@ impl Interceptor for ActorHook {
                     .write_mode
                     .map(|m| m == conserve::transport::WriteMode::CreateNew),
                 pre,
-                injected: None,
+                injected,
                 ok: false,
             },
         ));
-        Action::Proceed
+        match injected {
+            Some(k) => Action::Fail(k.to_conserve()),
+            None => Action::Proceed,
+        }
     }
 
     fn after(&self, _call: &Call<'_>, ok: bool) {
